@@ -84,7 +84,7 @@ def run(tier, seed):
         for cpus in ((None, '0-1') if q else (None, '0', '0-1', '0-3')):
             out = os.path.join(rd, 'par_%s.ndjson' % (cpus or 'all').replace('-', '_'))
             cmd = ([] if cpus is None else ['taskset', '-c', cpus]) + [par, 'replay', base, out]
-            rc, o = vlib.run(cmd, timeout=1800, check=False)
+            rc, o = vlib.run(cmd, timeout=600 if q else 1800, check=False)     # (a replay that hangs is cut: the missing lines are differences)
             ep = vlib.split_executions(vlib.read_lines(out))
             lines = []
             for i in stable:
